@@ -756,7 +756,7 @@ func main() {
 	if !r.Quick() {
 		maxLen = []int{5, 4}
 		fileCap = 1 << 30
-		ladder = []int{1000, 10000, 100000, 250000, 500000, 1000000, 2000000, 4000000}
+		ladder = []int{1000, 10000, 100000, 1000000, 2000000, 4000000} // (a 500 000-deep nest parses, in minutes: the Go runtime rescans the huge stack)
 		ladderCap = 1 << 30
 	}
 	files := corpus()
